@@ -779,6 +779,8 @@ func refErrorClass(msg string) string {
 		return "truncated"
 	case strings.Contains(msg, "shift count"):
 		return "shiftcount"
+	case strings.Contains(msg, "shifted operand") && strings.Contains(msg, "must be integer"):
+		return "shiftoperand"
 	case strings.Contains(msg, "cannot convert") && strings.Contains(msg, "constant"):
 		return "notrepresentable"
 	case strings.Contains(msg, "cannot use") && strings.Contains(msg, "constant"):
@@ -1477,6 +1479,82 @@ func constIsZero(v constant.Value) bool {
 	return false
 }
 
+// goKind: the kind the Go specification gives a constant expression (computed from the syntax:
+// go/types records the *final* type of untyped operands, after their implicit conversion).
+func urank(u string) int {
+	switch u {
+	case "int":
+		return 0
+	case "rune":
+		return 1
+	case "float":
+		return 2
+	}
+	return 3
+}
+
+func unifyKind(a, b gkind) gkind {
+	if a.T != "" {
+		return a
+	}
+	if b.T != "" {
+		return b
+	}
+	if urank(b.U) > urank(a.U) {
+		return b
+	}
+	return a
+}
+
+func goKind(x ast.Expr, env map[string]gkind) gkind {
+	switch a := x.(type) {
+	case *ast.BasicLit:
+		switch a.Kind {
+		case token.INT:
+			return gkind{U: "int"}
+		case token.CHAR:
+			return gkind{U: "rune"}
+		case token.FLOAT:
+			return gkind{U: "float"}
+		}
+		return gkind{U: "string"}
+	case *ast.Ident:
+		switch a.Name {
+		case "true", "false":
+			return gkind{U: "bool"}
+		case "iota":
+			return gkind{U: "int"}
+		}
+		return env[a.Name]
+	case *ast.ParenExpr:
+		return goKind(a.X, env)
+	case *ast.UnaryExpr:
+		return goKind(a.X, env)
+	case *ast.BinaryExpr:
+		switch a.Op {
+		case token.SHL, token.SHR:
+			k := goKind(a.X, env)
+			if k.T == "" && k.U == "float" {
+				return gkind{U: "int"}
+			}
+			return k
+		case token.EQL, token.NEQ, token.LSS, token.LEQ, token.GTR, token.GEQ:
+			return gkind{U: "bool"}
+		}
+		return unifyKind(goKind(a.X, env), goKind(a.Y, env))
+	case *ast.CallExpr:
+		id := a.Fun.(*ast.Ident).Name
+		if id == "len" {
+			return gkind{T: "int"}
+		}
+		return gkind{T: id}
+	}
+	return gkind{}
+}
+
+func (k gkind) isIntKind() bool   { return k.T == "" && (k.U == "int" || k.U == "rune") }
+func (k gkind) isFloatKind() bool { return k.T == "" && k.U == "float" || isFloatT(k.T) }
+
 func stripParens(x ast.Expr) ast.Expr {
 	for {
 		p, ok := x.(*ast.ParenExpr)
@@ -1487,32 +1565,76 @@ func stripParens(x ast.Expr) ast.Expr {
 	}
 }
 
-// requantized: a conversion to a floating-point type whose operand is a binary expression with a
-// value that is not an integer of the int64 range. In a constant declaration yaegi visits the
-// operand again with the target type already set and then converts its go/constant value through
-// Int64Val(ToInt(v)): the conversion yields 0 (or the low 64 bits).
-func requantized(info *types.Info, x ast.Expr) bool {
+// stripSigns removes parentheses and the unary operators + - ^ (the nodes through which yaegi's
+// pre-order pass hands a type down).
+func stripSigns(x ast.Expr) ast.Expr {
+	for {
+		switch p := x.(type) {
+		case *ast.ParenExpr:
+			x = p.X
+			continue
+		case *ast.UnaryExpr:
+			if p.Op == token.ADD || p.Op == token.SUB || p.Op == token.XOR {
+				x = p.X
+				continue
+			}
+		}
+		return x
+	}
+}
+
+func isArithBinary(x ast.Expr) bool {
+	b, ok := x.(*ast.BinaryExpr)
+	if !ok {
+		return false
+	}
+	switch b.Op {
+	case token.EQL, token.NEQ, token.LSS, token.LEQ, token.GTR, token.GEQ, token.LAND, token.LOR:
+		return false
+	}
+	return true
+}
+
+func untypedKind(t types.Type) types.BasicKind {
+	if b, ok := t.(*types.Basic); ok && b.Info()&types.IsUntyped != 0 {
+		return b.Kind()
+	}
+	return types.Invalid
+}
+
+// chain visits the nodes reachable from root through parentheses, unary + - ^ and arithmetic
+// binary expressions: the nodes that take the propagated type in yaegi's pre-order pass.
+func chain(root ast.Expr, f func(ast.Expr)) {
+	switch x := root.(type) {
+	case *ast.ParenExpr:
+		f(x)
+		chain(x.X, f)
+	case *ast.UnaryExpr:
+		if x.Op == token.ADD || x.Op == token.SUB || x.Op == token.XOR {
+			f(x)
+			chain(x.X, f)
+		}
+	case *ast.BinaryExpr:
+		if isArithBinary(x) {
+			f(x)
+			chain(x.X, f)
+			chain(x.Y, f)
+		}
+	}
+}
+
+// convOfBinary: a conversion whose operand is (up to signs and parentheses) a binary expression.
+// In a constant declaration yaegi visits the operand again with the target type already set (and
+// handed down its chain), leaves a go/constant value in it and then converts that value through
+// Int64Val(ToInt(v)): for a float or string target the result is 0 (or the low 64 bits) unless
+// the value is an integer of the int64 range; inside the chain the target type replaces the
+// untyped kinds (integer division becomes exact division, operand checks fail).
+func convOfBinary(x ast.Expr) (*ast.CallExpr, bool) {
 	call, ok := x.(*ast.CallExpr)
-	if !ok || len(call.Args) != 1 {
-		return false
+	if !ok || len(call.Args) != 1 || call.Fun.(*ast.Ident).Name == "len" {
+		return nil, false
 	}
-	tv := info.Types[call]
-	if tv.Type == nil || !isTypedFloat(tv.Type) {
-		return false
-	}
-	if _, ok := stripParens(call.Args[0]).(*ast.BinaryExpr); !ok {
-		return false
-	}
-	av := info.Types[call.Args[0]].Value
-	if av == nil {
-		return true
-	}
-	iv := constant.ToInt(av)
-	if iv.Kind() != constant.Int {
-		return true
-	}
-	_, exact := constant.Int64Val(iv)
-	return !exact
+	return call, isArithBinary(stripSigns(call.Args[0]))
 }
 
 // c03Analyze looks at the parsed program and at the facts go/types recorded for every
@@ -1523,41 +1645,170 @@ func c03Analyze(ref *c03ref) c03facts {
 	pm := ref.Prog
 	info := ref.Info
 	isConstDecl := pm.Kind == "const-global" || pm.Kind == "const-local"
-	var roots []ast.Expr
-	for _, g := range pm.GroupX {
-		for _, s := range g {
-			roots = append(roots, s...)
+	type rootInfo struct {
+		x     ast.Expr
+		dtype string // explicit type of the declaration ("" = none)
+		env   map[string]gkind
+	}
+	var roots []rootInfo
+	env := map[string]gkind{}
+	snapshot := func() map[string]gkind {
+		m := make(map[string]gkind, len(env))
+		for k, v := range env {
+			m[k] = v
+		}
+		return m
+	}
+	for gi, g := range pm.GroupX {
+		prevT := ""
+		var prevX []ast.Expr
+		for si, s := range g {
+			sp := pm.Groups[gi][si]
+			xs, dt := s, sp.Type
+			if len(s) == 0 {
+				// implicit repetition: the previous expressions are visited again with this spec's iota
+				xs, dt = prevX, prevT
+			} else {
+				prevT, prevX = sp.Type, s
+			}
+			here := snapshot()
+			for i, x := range xs {
+				roots = append(roots, rootInfo{x, dt, here})
+				if i < len(sp.Names) && sp.Names[i] != 0 {
+					k := goKind(x, here)
+					if dt != "" {
+						k = gkind{T: dt}
+					}
+					env[fmt.Sprintf("c%d", sp.Names[i])] = k
+				}
+			}
+			if len(sp.Names) > 1 {
+				f.Feats["iota-multi"] = true
+			}
 		}
 	}
 	if pm.EX != nil {
-		roots = append(roots, pm.EX)
+		roots = append(roots, rootInfo{pm.EX, pm.VarT, env})
 	}
-	for _, root := range roots {
+	typedFeature := pm.VarT != ""
+	for _, ri := range roots {
+		root := ri.x
+		K := func(x ast.Expr) gkind { return goKind(x, ri.env) }
+		rk := K(root)
+		if rk.T == "" && rk.U == "rune" {
+			f.Feats["rune-result"] = true
+		}
+		if ri.dtype != "" {
+			typedFeature = true
+			if isArithBinary(stripSigns(root)) {
+				f.Feats["decl-type-propagation"] = true
+			}
+		} else if isConstDecl {
+			// second and third visit of a constant declaration: the type found by the first visit is
+			// handed down the chain of the initialiser
+			pFloat := rk.isFloatKind()
+			pTypedInt := isIntT(rk.T)
+			if pFloat || pTypedInt {
+				chain(root, func(n ast.Expr) {
+					intKind := K(n).isIntKind()
+					switch x := n.(type) {
+					case *ast.BinaryExpr:
+						switch x.Op {
+						case token.QUO:
+							if intKind {
+								f.Feats["multipass-propagation"] = true
+							}
+						case token.REM, token.AND, token.OR, token.XOR, token.AND_NOT, token.SHL, token.SHR:
+							if intKind && pFloat {
+								f.Feats["multipass-propagation"] = true
+							}
+						}
+					case *ast.UnaryExpr:
+						if x.Op == token.XOR && intKind && pFloat {
+							f.Feats["multipass-propagation"] = true
+						}
+					}
+				})
+			}
+		}
+		// is x below an arithmetic binary expression whose kind is typed? (fixUntyped walks down from there)
+		var walk func(x ast.Expr, underTyped bool)
+		walk = func(x ast.Expr, underTyped bool) {
+			switch a := x.(type) {
+			case *ast.ParenExpr:
+				walk(a.X, underTyped)
+			case *ast.UnaryExpr:
+				walk(a.X, underTyped)
+			case *ast.BinaryExpr:
+				u := underTyped || (K(a).T != "" && isArithBinary(a))
+				switch a.Op {
+				case token.EQL, token.NEQ, token.LSS, token.LEQ, token.GTR, token.GEQ:
+					u = true // the comparison itself has type bool
+				}
+				walk(a.X, u)
+				walk(a.Y, u)
+			case *ast.CallExpr:
+				typedFeature = true
+				arg := a.Args[0]
+				if a.Fun.(*ast.Ident).Name == "len" {
+					if _, leaf := stripParens(arg).(*ast.BasicLit); !leaf && underTyped && isConstDecl {
+						if _, id := stripParens(arg).(*ast.Ident); !id {
+							f.Feats["multipass-propagation"] = true // fixUntyped types the operand of len
+						}
+					}
+				}
+				walk(arg, underTyped)
+			}
+		}
+		walk(root, false)
 		ast.Inspect(root, func(n ast.Node) bool {
 			switch x := n.(type) {
 			case *ast.CallExpr:
-				if isConstDecl && requantized(info, x) {
+				if _, bin := convOfBinary(x); bin && isConstDecl {
 					f.Feats["conv-requantized"] = true
 				}
+			case *ast.UnaryExpr:
+				if x.Op == token.SUB && isFloatT(K(x).T) && constIsZero(info.Types[x].Value) {
+					f.Feats["float-negzero"] = true
+				}
 			case *ast.BinaryExpr:
+				kx, ky := K(x.X), K(x.Y)
 				ty := info.Types[x.Y]
+				if (x.Op == token.MUL || x.Op == token.QUO) && isFloatT(K(x).T) && constIsZero(info.Types[x].Value) {
+					f.Feats["float-negzero"] = true
+				}
 				switch x.Op {
 				case token.QUO, token.REM:
 					if isConstDecl {
 						ast.Inspect(x.Y, func(m ast.Node) bool {
-							if e, ok := m.(ast.Expr); ok && requantized(info, e) {
-								f.Discard = "divisor containing a requantized float conversion (infinity)"
+							if e, ok := m.(ast.Expr); ok {
+								if call, bin := convOfBinary(e); bin && isFloatT(call.Fun.(*ast.Ident).Name) {
+									f.Discard = "divisor containing a requantized float conversion (infinity)"
+								}
 							}
 							return true
 						})
 					}
-					if constIsZero(ty.Value) && ty.Type != nil {
+					if constIsZero(ty.Value) {
 						switch {
-						case isTypedFloat(ty.Type):
+						case isFloatT(ky.T):
 							f.Discard = "typed float division by zero (infinity)"
-						case isTypedInt(ty.Type):
+						case isIntT(ky.T):
 							f.Feats["typed-divzero"] = true
 						}
+					}
+					if x.Op == token.QUO {
+						// constant division skips the unification of the operands
+						if kx.T == "" && ky.T == "" && kx.U == "rune" && ky.U == "int" {
+							f.Feats["quo-no-unify"] = true // 'a' / 2 is given the kind of the right operand
+						}
+						if (kx.T == "float32" && ky.T == "") || (ky.T == "float32" && kx.T == "") {
+							f.Feats["quo-no-unify"] = true // the untyped operand is used at float64 precision
+						}
+					}
+				case token.SHL, token.SHR:
+					if kx.T == "" && kx.U == "float" {
+						f.Feats["float-shift"] = true // 1.0 << 3 keeps the floating-point kind
 					}
 				case token.EQL, token.NEQ, token.LSS, token.LEQ, token.GTR, token.GEQ, token.LAND, token.LOR:
 					if isConstDecl {
@@ -1568,11 +1819,12 @@ func c03Analyze(ref *c03ref) c03facts {
 			return true
 		})
 	}
+	f.Feats["typed"] = typedFeature
 	// infinities are outside the model: yaegi's machine arithmetic on typed floats yields +Inf/-Inf
 	// where Go rejects an overflow or a division by zero
 	usesFloat, uses32 := false, false
-	for _, root := range roots {
-		ast.Inspect(root, func(n ast.Node) bool {
+	for _, ri := range roots {
+		ast.Inspect(ri.x, func(n ast.Node) bool {
 			if x, ok := n.(ast.Expr); ok {
 				if tv, ok := info.Types[x]; ok && tv.Type != nil && isTypedFloat(tv.Type) {
 					usesFloat = true
@@ -1624,16 +1876,36 @@ func c03Analyze(ref *c03ref) c03facts {
 			}
 		}
 	}
+	if ref.Out.Class == "rejected" && (typedFeature || f.Feats["rune-result"]) {
+		// Go rejects a constant that does not fit a type (the default type int32 of a rune included)
+		f.Feats["ref-rejects-typed"] = true
+	}
 	return f
 }
 
 // c03Region maps the features of a case to the region label of a known finding ("" = main stream).
 func c03Region(f c03facts) string {
 	switch {
+	case f.Feats["iota-multi"]:
+		return "iota-multi"
 	case f.Feats["cmp"]:
 		return "const-compare"
+	case f.Feats["quo-no-unify"]:
+		return "quo-no-unify"
+	case f.Feats["float-shift"]:
+		return "float-shift"
+	case f.Feats["decl-type-propagation"]:
+		return "decl-type-propagation"
+	case f.Feats["multipass-propagation"]:
+		return "multipass-propagation"
+	case f.Feats["conv-requantized"]:
+		return "conv-requantized"
 	case f.Feats["typed-divzero"]:
 		return "typed-divzero"
+	case f.Feats["float-negzero"]:
+		return "float-negzero"
+	case f.Feats["ref-rejects-typed"]:
+		return "typed-overflow-wrap"
 	}
 	return ""
 }
@@ -1653,6 +1925,345 @@ type c03case struct {
 	Region string
 }
 
+// ---------------------------------------------------------------- simple literal forms
+
+// c03LiteralForm: the program is a single declaration or expression of one of the forms
+//   const c T = ±lit | var v T = ±lit | T(±lit) | const c = T(±lit) | var v = T(±lit)
+// (lit an integer or floating-point literal). For these yaegi calls representableConst: the only
+// defect is its bound for the signed types narrower than 64 bits (|v| < 2^N accepted).
+func c03LiteralForm(pm *c03progModel) (lit *big.Rat, target string, ok bool) {
+	var e *cx
+	dt := ""
+	switch pm.Kind {
+	case "const-global", "const-local":
+		if len(pm.Groups) != 1 || len(pm.Groups[0]) != 1 || len(pm.Groups[0][0].Exprs) != 1 {
+			return nil, "", false
+		}
+		e, dt = pm.Groups[0][0].Exprs[0], pm.Groups[0][0].Type
+	default:
+		e, dt = pm.E, pm.VarT
+	}
+	signedLit := func(x *cx) (*big.Rat, bool) {
+		neg := false
+		for {
+			switch {
+			case x.K == "paren":
+				x = x.A
+				continue
+			case x.K == "un" && (x.Op == "-" || x.Op == "+"):
+				if x.Op == "-" {
+					neg = !neg
+				}
+				x = x.A
+				continue
+			}
+			break
+		}
+		var q *big.Rat
+		switch x.K {
+		case "int":
+			q = new(big.Rat).SetInt(x.Z)
+		case "float":
+			q = new(big.Rat).Set(x.Q)
+		default:
+			return nil, false
+		}
+		if neg {
+			q.Neg(q)
+		}
+		return q, true
+	}
+	if e.K == "conv" && (dt == "" || dt == e.T) {
+		if q, ok := signedLit(e.A); ok {
+			return q, e.T, true
+		}
+		return nil, "", false
+	}
+	if dt != "" {
+		if q, ok := signedLit(e); ok {
+			return q, dt, true
+		}
+	}
+	return nil, "", false
+}
+
+// signedBitlenZone: v is an integer that does not fit the signed type t (narrower than 64 bits)
+// but has at most as many bits as t is wide.
+func signedBitlenZone(v *big.Rat, t string) bool {
+	if !isIntT(t) || isUintT(t) || bitsOf(t) == 64 || !v.IsInt() {
+		return false
+	}
+	n := bitsOf(t)
+	z := v.Num()
+	lo := new(big.Int).Neg(new(big.Int).Lsh(big.NewInt(1), uint(n-1)))
+	hi := new(big.Int).Sub(new(big.Int).Lsh(big.NewInt(1), uint(n-1)), big.NewInt(1))
+	if z.Cmp(lo) >= 0 && z.Cmp(hi) <= 0 {
+		return false
+	}
+	return new(big.Int).Abs(z).BitLen() <= n
+}
+
+// ---------------------------------------------------------------- boundary literals (enumerated)
+
+func c03Boundary() []*c03prog {
+	var progs []*c03prog
+	lit := func(z *big.Int) *cx {
+		a := new(big.Int).Abs(z)
+		e := &cx{K: "int", Z: a, Lit: a.String()}
+		if z.Sign() < 0 {
+			return &cx{K: "un", Op: "-", A: e}
+		}
+		return e
+	}
+	for _, t := range c03IntTypes {
+		n := bitsOf(t)
+		pow := func(k int) *big.Int { return new(big.Int).Lsh(big.NewInt(1), uint(k)) }
+		var min, max *big.Int
+		if isUintT(t) {
+			min, max = big.NewInt(0), new(big.Int).Sub(pow(n), big.NewInt(1))
+		} else {
+			min, max = new(big.Int).Neg(pow(n-1)), new(big.Int).Sub(pow(n-1), big.NewInt(1))
+		}
+		vals := []*big.Int{
+			new(big.Int).Sub(min, big.NewInt(1)), min, new(big.Int).Add(min, big.NewInt(1)),
+			new(big.Int).Sub(max, big.NewInt(1)), max, new(big.Int).Add(max, big.NewInt(1)),
+			pow(n), new(big.Int).Sub(pow(n), big.NewInt(1)), new(big.Int).Add(pow(n), big.NewInt(1)),
+			new(big.Int).Neg(pow(n)), new(big.Int).Neg(new(big.Int).Sub(pow(n), big.NewInt(1))),
+			big.NewInt(0), big.NewInt(-1), pow(100),
+		}
+		for _, v := range vals {
+			one := func(kind, dt string, e *cx) *c03prog {
+				return &c03prog{Kind: kind, Groups: [][]c03spec{{{Names: []int{1}, Type: dt, Exprs: []*cx{e}}}}, Paren: []bool{false}}
+			}
+			progs = append(progs,
+				one("const-global", t, lit(v)),
+				one("const-local", t, lit(v)),
+				one("const-global", "", &cx{K: "conv", T: t, A: lit(v)}),
+				one("const-local", "", &cx{K: "conv", T: t, A: lit(v)}),
+				&c03prog{Kind: "var", VarT: t, E: lit(v)},
+				&c03prog{Kind: "var", E: &cx{K: "conv", T: t, A: lit(v)}},
+				&c03prog{Kind: "expr", E: &cx{K: "conv", T: t, A: lit(v)}},
+			)
+		}
+		// float literals: integral (representable) and fractional (truncated)
+		for _, fl := range []string{"3.0", "2.5", "0.0"} {
+			q, _ := new(big.Rat).SetString(fl)
+			e := &cx{K: "float", Q: q, Lit: fl}
+			progs = append(progs,
+				&c03prog{Kind: "const-global", Groups: [][]c03spec{{{Names: []int{1}, Type: t, Exprs: []*cx{e}}}}, Paren: []bool{false}},
+				&c03prog{Kind: "expr", E: &cx{K: "conv", T: t, A: e}},
+				&c03prog{Kind: "var", VarT: t, E: e})
+		}
+	}
+	for _, t := range []string{"float32", "float64"} {
+		for _, fl := range []string{"0.1", "16777217", "3.4028234e38", "3.4028235e38", "3.4028236e38", "3.5e38", "1.7976931348623157e308", "1.8e308", "1e-50", "1e-320", "1e-400", "9007199254740993"} {
+			q, _ := new(big.Rat).SetString(fl)
+			var e *cx
+			if strings.ContainsAny(fl, ".e") {
+				e = &cx{K: "float", Q: q, Lit: fl}
+			} else {
+				e = &cx{K: "int", Z: q.Num(), Lit: fl}
+			}
+			progs = append(progs,
+				&c03prog{Kind: "const-global", Groups: [][]c03spec{{{Names: []int{1}, Type: t, Exprs: []*cx{e}}}}, Paren: []bool{false}},
+				&c03prog{Kind: "const-local", Groups: [][]c03spec{{{Names: []int{1}, Exprs: []*cx{{K: "conv", T: t, A: e}}}}}, Paren: []bool{false}},
+				&c03prog{Kind: "expr", E: &cx{K: "conv", T: t, A: e}},
+				&c03prog{Kind: "var", VarT: t, E: e})
+		}
+	}
+	// division and remainder by a constant zero, shift counts
+	for _, src := range []struct {
+		op   string
+		a, c *cx
+	}{
+		{"/", &cx{K: "int", Z: big.NewInt(1), Lit: "1"}, &cx{K: "int", Z: big.NewInt(0), Lit: "0"}},
+		{"%", &cx{K: "int", Z: big.NewInt(7), Lit: "7"}, &cx{K: "int", Z: big.NewInt(0), Lit: "0"}},
+		{"/", &cx{K: "float", Q: big.NewRat(3, 2), Lit: "1.5"}, &cx{K: "int", Z: big.NewInt(0), Lit: "0"}},
+		{"/", &cx{K: "int", Z: big.NewInt(1), Lit: "1"}, &cx{K: "float", Q: new(big.Rat), Lit: "0.0"}},
+		{"/", &cx{K: "rune", Z: big.NewInt(97), Lit: "'a'"}, &cx{K: "paren", A: &cx{K: "bin", Op: "-", A: &cx{K: "int", Z: big.NewInt(2), Lit: "2"}, C: &cx{K: "int", Z: big.NewInt(2), Lit: "2"}}}},
+		{"<<", &cx{K: "int", Z: big.NewInt(1), Lit: "1"}, &cx{K: "un", Op: "-", A: &cx{K: "int", Z: big.NewInt(1), Lit: "1"}}},
+		{">>", &cx{K: "int", Z: big.NewInt(1), Lit: "1"}, &cx{K: "float", Q: big.NewRat(3, 2), Lit: "1.5"}},
+		{"<<", &cx{K: "float", Q: big.NewRat(3, 2), Lit: "1.5"}, &cx{K: "int", Z: big.NewInt(1), Lit: "1"}},
+	} {
+		e := &cx{K: "bin", Op: src.op, A: src.a, C: src.c}
+		progs = append(progs,
+			&c03prog{Kind: "const-global", Groups: [][]c03spec{{{Names: []int{1}, Exprs: []*cx{e}}}}, Paren: []bool{false}},
+			&c03prog{Kind: "const-local", Groups: [][]c03spec{{{Names: []int{1}, Exprs: []*cx{e}}}}, Paren: []bool{false}},
+			&c03prog{Kind: "var", E: e},
+			&c03prog{Kind: "expr", E: e})
+	}
+	return progs
+}
+
+// multiName: a block whose specs declare several names (iota advances once per name in yaegi)
+func (g *c03gen) multiName() *c03prog {
+	r := g.r
+	p := &c03prog{Kind: "const-global", Paren: []bool{true}}
+	if r.bool() {
+		p.Kind = "const-local"
+	}
+	env := &c03env{iota: true, cdecl: true}
+	save := *g
+	g.typed, g.floats, g.cmp = false, false, false
+	defer func() { g.typed, g.floats, g.cmp = save.typed, save.floats, save.cmp }()
+	next := 1
+	var grp []c03spec
+	n := 2 + r.intn(3)
+	width := 2 + r.intn(2)
+	for si := 0; si < n; si++ {
+		sp := c03spec{}
+		for j := 0; j < width; j++ {
+			sp.Names = append(sp.Names, next)
+			next++
+			sp.Exprs = append(sp.Exprs, g.gen(env, gkind{U: "int"}, 2))
+		}
+		grp = append(grp, sp)
+	}
+	p.Groups = [][]c03spec{grp}
+	return p
+}
+
+// ---------------------------------------------------------------- representableConst / convertConst (function level)
+
+type c03cval struct {
+	Z *big.Int
+	Q *big.Rat
+	S *string
+	B *bool
+}
+
+func (c c03cval) coq() string {
+	switch {
+	case c.Z != nil:
+		return "(CInt " + coqBigZ(c.Z) + ")"
+	case c.Q != nil:
+		return "(CRat " + coqQ(c.Q) + ")"
+	case c.S != nil:
+		return "(CStr " + coqBytes(*c.S) + ")"
+	}
+	return "(CBool " + coqBool(*c.B) + ")"
+}
+
+func (c c03cval) value() constant.Value {
+	switch {
+	case c.Z != nil:
+		return constant.Make(c.Z)
+	case c.Q != nil:
+		return constant.Make(c.Q)
+	case c.S != nil:
+		return constant.MakeString(*c.S)
+	}
+	return constant.MakeBool(*c.B)
+}
+
+var c03ReflectTypes = map[string]reflect.Type{
+	"int": reflect.TypeOf(int(0)), "int8": reflect.TypeOf(int8(0)), "int16": reflect.TypeOf(int16(0)), "int32": reflect.TypeOf(int32(0)), "int64": reflect.TypeOf(int64(0)),
+	"uint": reflect.TypeOf(uint(0)), "uint8": reflect.TypeOf(uint8(0)), "uint16": reflect.TypeOf(uint16(0)), "uint32": reflect.TypeOf(uint32(0)), "uint64": reflect.TypeOf(uint64(0)), "uintptr": reflect.TypeOf(uintptr(0)),
+	"float32": reflect.TypeOf(float32(0)), "float64": reflect.TypeOf(float64(0)), "string": reflect.TypeOf(""), "bool": reflect.TypeOf(true),
+}
+
+// goRepresentable: the specification's "representable" computed independently of both models.
+func goRepresentable(c c03cval, t string) bool {
+	switch {
+	case isIntT(t):
+		var z *big.Int
+		switch {
+		case c.Z != nil:
+			z = c.Z
+		case c.Q != nil && c.Q.IsInt():
+			z = c.Q.Num()
+		default:
+			return false
+		}
+		n := bitsOf(t)
+		if isUintT(t) {
+			return z.Sign() >= 0 && z.BitLen() <= n
+		}
+		lo := new(big.Int).Neg(new(big.Int).Lsh(big.NewInt(1), uint(n-1)))
+		hi := new(big.Int).Sub(new(big.Int).Lsh(big.NewInt(1), uint(n-1)), big.NewInt(1))
+		return z.Cmp(lo) >= 0 && z.Cmp(hi) <= 0
+	case isFloatT(t):
+		var q *big.Rat
+		switch {
+		case c.Z != nil:
+			q = new(big.Rat).SetInt(c.Z)
+		case c.Q != nil:
+			q = c.Q
+		default:
+			return false
+		}
+		if t == "float32" {
+			f, _ := q.Float32()
+			return !math.IsInf(float64(f), 0)
+		}
+		f, _ := q.Float64()
+		return !math.IsInf(f, 0)
+	case t == "string":
+		return c.S != nil
+	}
+	return c.B != nil
+}
+
+func reflectToVal(v reflect.Value) (c03val, bool) {
+	name := v.Type().Kind().String()
+	cv := c03val{T: name}
+	switch {
+	case isIntT(name) && !isUintT(name):
+		cv.Z = big.NewInt(v.Int())
+	case isUintT(name):
+		cv.Z = new(big.Int).SetUint64(v.Uint())
+	case isFloatT(name):
+		f := v.Float()
+		if math.IsInf(f, 0) || math.IsNaN(f) {
+			return cv, false
+		}
+		if f == 0 && math.Signbit(f) {
+			cv.NZ = true
+		} else {
+			cv.Q = new(big.Rat).SetFloat64(f)
+		}
+	case name == "string":
+		s := v.String()
+		cv.S = &s
+	case name == "bool":
+		b := v.Bool()
+		cv.B = &b
+	default:
+		return cv, false
+	}
+	return cv, true
+}
+
+func c03ReprGrid() []c03cval {
+	var l []c03cval
+	z := func(x *big.Int) { l = append(l, c03cval{Z: x}) }
+	for _, k := range []int{7, 8, 15, 16, 31, 32, 63, 64, 100} {
+		p := new(big.Int).Lsh(big.NewInt(1), uint(k))
+		for _, d := range []int64{-1, 0, 1} {
+			v := new(big.Int).Add(p, big.NewInt(d))
+			z(v)
+			z(new(big.Int).Neg(v))
+		}
+	}
+	for _, v := range []int64{0, 1, -1, 2, 100, 200, -200, 255, 256, 300} {
+		z(big.NewInt(v))
+	}
+	for _, fl := range []string{"0.5", "1.5", "-1.5", "255.0", "256.0", "-1.0", "-128.0", "-129.0", "127.0", "128.0", "4294967296.0", "18446744073709551616.0", "18446744073709551615.0", "1e39", "-1e39", "3.4028235e38",
+		"340282356779733661637539395458142568448", "340282356779733661637539395458142568447", "1e309", "-1e309", "1.7976931348623157e308", "1e-50", "1e-400", "-1e-400", "0.1", "0.0"} {
+		q, _ := new(big.Rat).SetString(fl)
+		l = append(l, c03cval{Q: q})
+	}
+	for _, s := range []string{"", "a", "héllo"} {
+		s := s
+		l = append(l, c03cval{S: &s})
+	}
+	for _, b := range []bool{true, false} {
+		b := b
+		l = append(l, c03cval{B: &b})
+	}
+	return l
+}
+
 func runC03(args []string) error {
 	fs := flag.NewFlagSet("c03", flag.ExitOnError)
 	out := fs.String("out", "/verif/build/C03", "output directory")
@@ -1668,85 +2279,165 @@ func runC03(args []string) error {
 	}
 	sm := newSummary("C03")
 	distinct := distinctSet{}
-	nMain := 2600
+	nMain, nRegion := 1300, 40
 	if *tier == "thorough" {
-		nMain = 60000
+		nMain, nRegion = 45000, 900
+	}
+	if *count > 0 {
+		nMain = *count
 	}
 	if _, err := (c03Importer{}).Import("fmt"); err != nil {
 		return fmt.Errorf("reference importer: %v", err)
 	}
 
-	if *count > 0 {
-		nMain = *count
+	// region labels (see c03Region): typed-overflow-wrap signed-bitlen typed-divzero float-negzero const-compare
+	// decl-type-propagation multipass-propagation conv-requantized quo-no-unify float-shift iota-multi
+	streamCount := map[string]int{}
+	want := func(region string) bool {
+		if region == "" {
+			return streamCount[""] < nMain
+		}
+		return streamCount[region] < nRegion
 	}
-	g := &c03gen{r: c03Rng(*seed), cmp: true, typed: true, floats: true, bigLits: true, maxShift: 210, single: *single}
 	var cases []*c03case
 	seen := map[string]bool{}
-	discarded := 0
-	for len(cases) < nMain {
-		depth := 1 + g.r.intn(*maxDepth)
-		p := g.program(depth)
-		src := p.source()
+	// candidates are checked by the reference in parallel, then filed in their stream in generation order
+	type cand struct {
+		p   *c03prog
+		src string
+		ref *c03ref
+		err error
+	}
+	prepare := func(ps []*c03prog) []*cand {
+		cs := make([]*cand, len(ps))
+		for i, p := range ps {
+			cs[i] = &cand{p: p, src: p.source()}
+		}
+		parallelMap(len(cs), 0, func(i int) {
+			cs[i].ref, cs[i].err = c03Reference(cs[i].src)
+		})
+		return cs
+	}
+	// admit applies the exclusion rules and files the case in its stream
+	admit := func(stream string, c *cand) error {
+		p, src, ref := c.p, c.src, c.ref
 		if seen[src] {
-			continue
+			return nil
 		}
 		seen[src] = true
-		ref, err := c03Reference(src)
-		if err != nil {
-			return fmt.Errorf("reference: %v\n%s", err, src)
+		if c.err != nil {
+			return fmt.Errorf("reference: %v\n%s", c.err, src)
 		}
 		if ref.Out.Class == "rejected" && refErrorClass(ref.Errs[0]) == "" {
-			discarded++
 			sm.count("discarded:ill-typed")
 			if *dump {
 				fmt.Fprintf(os.Stderr, "DISCARD %s\n%s\n", ref.Errs[0], src)
 			}
-			continue
+			return nil
 		}
 		if !ref.Exact || ref.MaxBit > 3000 {
 			sm.count("discarded:inexact")
-			continue
+			return nil
 		}
 		facts := c03Analyze(ref)
+		region := c03Region(facts)
+		if v, t, ok := c03LiteralForm(ref.Prog); ok {
+			// yaegi checks these forms with representableConst: no infinity can arise, and the only
+			// defect is the bound of the narrow signed types
+			facts.Discard = ""
+			region = ""
+			if signedBitlenZone(v, t) {
+				region = "signed-bitlen"
+			}
+		}
 		if facts.Discard != "" {
 			sm.count("discarded:unmodelled")
-			continue
+			return nil
 		}
-		cases = append(cases, &c03case{Stream: "main", Prog: p, Src: src, Ref: ref, Region: c03Region(facts)})
+		if stream != "boundary" {
+			if !want(region) {
+				return nil
+			}
+			streamCount[region]++
+		}
+		cases = append(cases, &c03case{Stream: stream, Prog: p, Src: src, Ref: ref, Region: region})
+		return nil
+	}
+
+	// enumerated boundary literals of every integer width, float limits, zero divisors, shift counts
+	for _, c := range prepare(c03Boundary()) {
+		if err := admit("boundary", c); err != nil {
+			return err
+		}
+	}
+	nBoundary := len(cases)
+	// seeded streams: the main stream (no feature of a known finding) and one small stream per region
+	g := &c03gen{r: c03Rng(*seed), cmp: true, typed: true, floats: true, bigLits: true, maxShift: 210, single: *single}
+	for attempts := 0; streamCount[""] < nMain && attempts < 40*nMain; {
+		var batch []*c03prog
+		for len(batch) < 512 {
+			attempts++
+			if attempts%40 == 39 {
+				batch = append(batch, g.multiName())
+			} else {
+				batch = append(batch, g.program(1+g.r.intn(*maxDepth)))
+			}
+		}
+		for _, c := range prepare(batch) {
+			if streamCount[""] >= nMain {
+				break
+			}
+			if err := admit("seeded", c); err != nil {
+				return err
+			}
+		}
 	}
 	parallelMap(len(cases), 0, func(i int) {
 		cases[i].Impl = c03RunYaegi(cases[i].Src)
 	})
 
 	var lines []string
+	nontrivial := 0
 	for i, c := range cases {
 		id := i + 1
 		in := map[string]any{"stream": c.Stream, "kind": c.Ref.Prog.Kind, "source": c.Src}
-		sm.CaseIndex[fmt.Sprint(id)] = map[string]any{"source": c.Src, "yaegi": c.Impl.String(), "yaegi_note": c.Impl.Note, "reference": c.Ref.Out.String(), "ref_note": c.Ref.Out.Note}
+		sm.CaseIndex[fmt.Sprint(id)] = map[string]any{"source": c.Src, "region": c.Region, "yaegi": c.Impl.String(), "yaegi_note": c.Impl.Note, "reference": c.Ref.Out.String(), "ref_note": c.Ref.Out.Note}
 		lines = append(lines, fmt.Sprintf("(%d%%N, %s, %s, %s)", id, c.Ref.Prog.coq(), c.Impl.coq(), c.Ref.Out.coq()))
 		sm.Evaluations++
 		sm.ImplComparisons++
 		sm.RefComparisons++
+		sm.count("stream:" + c.Stream)
 		sm.count("kind:" + c.Ref.Prog.Kind)
 		sm.count("ref:" + c.Ref.Out.Class)
 		sm.count("impl:" + c.Impl.Class)
 		if c.Region != "" {
 			sm.count("region:" + c.Region)
+		} else {
+			sm.count("region:(none)")
 		}
-		distinct.add(c.Src)
-		if len(sm.Samples) < 6 && i%7 == 0 {
+		if strings.ContainsAny(c.Src[strings.Index(c.Src, "\"fmt\"")+5:strings.Index(c.Src, "fmt.Printf")], "+-*/%&|^<>!") {
+			distinct.add(c.Src)
+			nontrivial++
+		}
+		if len(sm.Samples) < 6 && i >= nBoundary && (i-nBoundary)%9 == 0 {
 			sm.Samples = append(sm.Samples, in)
 		}
 		if c.Impl.String() != c.Ref.Out.String() {
 			sm.RefMismatches = append(sm.RefMismatches, refMismatch{ID: id, Region: c.Region, Input: in, Impl: c.Impl.String() + " " + c.Impl.Note, Ref: c.Ref.Out.String() + " " + c.Ref.Out.Note})
 		}
 		if *dump {
-			fmt.Fprintf(os.Stderr, "CASE %d\n%s  yaegi: %s %s\n  ref:   %s %s\n", id, c.Src, c.Impl.String(), c.Impl.Note, c.Ref.Out.String(), c.Ref.Out.Note)
+			fmt.Fprintf(os.Stderr, "CASE %d [%s]\n%s  yaegi: %s %s\n  ref:   %s %s\n", id, c.Region, c.Src, c.Impl.String(), c.Impl.Note, c.Ref.Out.String(), c.Ref.Out.Note)
 		}
 	}
 
 	hdr := "From Verif Require Import Const.Model Const.Cases.\n"
-	per := 170
+	per := (len(lines) + 15) / 16
+	if per < 100 {
+		per = 100
+	}
+	if per > 400 {
+		per = 400
+	}
 	for i, k := 0, 0; i < len(lines); i, k = i+per, k+1 {
 		j := i + per
 		if j > len(lines) {
@@ -1759,10 +2450,60 @@ func runC03(args []string) error {
 			return err
 		}
 	}
+
+	// ---- function level: representableConst and convertConst on the boundary grid (exhaustive)
+	var rlines []string
+	rid := len(cases)
+	for _, c := range c03ReprGrid() {
+		for _, t := range c03Types {
+			rid++
+			rt := c03ReflectTypes[t]
+			implRepr := interp.VerifRepresentableConst(c.value(), rt)
+			v, cerr, panicked := interp.VerifConvertConst(c.value(), rt)
+			conv := c03out{Class: "printed"}
+			switch {
+			case panicked:
+				conv = c03out{Class: "host-panic"}
+			case cerr != nil:
+				conv = c03out{Class: "rejected"}
+			default:
+				cv, ok := reflectToVal(v)
+				if !ok {
+					conv = c03out{Class: "other"} // infinity: outside the model
+				} else {
+					conv.Vals = []c03val{cv}
+				}
+			}
+			refRepr := goRepresentable(c, t)
+			in := map[string]any{"kind": "representableConst", "constant": c.value().ExactString(), "type": t}
+			sm.CaseIndex[fmt.Sprint(rid)] = in
+			rlines = append(rlines, fmt.Sprintf("(%d%%N, %s, %s, %s, %s, %s)", rid, c.coq(), coqBT(t), coqBool(implRepr), conv.coq(), coqBool(refRepr)))
+			sm.Evaluations++
+			sm.ImplComparisons++
+			sm.RefComparisons++
+			sm.count("function:representableConst")
+			if implRepr != refRepr {
+				region := ""
+				if c.Z != nil && signedBitlenZone(new(big.Rat).SetInt(c.Z), t) || c.Q != nil && signedBitlenZone(c.Q, t) {
+					region = "signed-bitlen"
+				}
+				sm.RefMismatches = append(sm.RefMismatches, refMismatch{ID: rid, Region: region, Input: in, Impl: implRepr, Ref: refRepr})
+			}
+		}
+	}
+	{
+		body := fmt.Sprintf("Definition cases : list repr_case := [\n%s\n].\nDefinition MY := Eval vm_compute in repr_mis_y cases.\nPrint MY.\nDefinition MG := Eval vm_compute in repr_mis_g cases.\nPrint MG.\n", strings.Join(rlines, ";\n"))
+		name := "cases_repr_0.v"
+		sm.CasesFiles = append(sm.CasesFiles, name)
+		if err := os.WriteFile(filepath.Join(*out, name), []byte(hdr+body), 0o644); err != nil {
+			return err
+		}
+	}
+
 	sm.DistinctNontriv = len(distinct)
-	sm.Rule = "seeded constant-expression programs; distinct = distinct source texts"
+	sm.Rule = "programs: enumerated boundary literals of every integer width, float limits, zero divisors and shift counts in every declaration form, plus seeded constant-expression programs (const groups at package level and in functions with iota and implicit repetition, var declarations, printed expressions; trees of seed-chosen depth over integer literals up to 2^200, runes, decimal floats, strings, booleans, every operator, conversions to every basic type, len); function level: representableConst and convertConst on a grid of boundary constants x every basic type (exhaustive over the grid). distinct = distinct source texts; non-trivial = the program contains at least one operator"
+	sm.Notes = append(sm.Notes, fmt.Sprintf("%d boundary programs, %d seeded programs (%d in the main stream), %d function-level cases; %d of the programs are non-trivial", nBoundary, len(cases)-nBoundary, streamCount[""], len(rlines), nontrivial))
 	_ = sort.Strings
-	_ = reflect.TypeOf
 	_ = utf8.RuneLen
 	return sm.write(*out)
 }
